@@ -55,6 +55,7 @@ def sweep(ctx, n):
     from magpylib import mu_0
 
     rng, fails, done, per = ctx.rng, [], 0, {}
+    nonfinite_rows = 0
     for i in range(n):
         nps = np.random.default_rng(rng.randrange(2**31))
         cls = CLASSES[i % len(CLASSES)]
@@ -69,9 +70,13 @@ def sweep(ctx, n):
         sc = float(np.max(np.abs(J))) + float(np.max(np.abs(B))) + 1e-300
         done += len(obs)
         per[cls] = per.get(cls, 0) + len(obs)
-        r1 = np.abs(B - mu_0 * H - J).max(axis=1)
+        # rows where B or H is not finite are C15's business (recorded there); the relation is checked on the finite rows
+        fin = np.isfinite(B).all(axis=1) & np.isfinite(H).all(axis=1)
+        nonfinite_rows += int((~fin).sum())
+        sc = float(np.max(np.abs(J))) + float(np.max(np.abs(B[fin]))) + 1e-300 if fin.any() else 1.0
+        r1 = np.where(fin, np.abs(np.where(fin[:, None], B - mu_0 * H - J, 0.0)).max(axis=1), 0.0)
         r2 = np.abs(J - mu_0 * M).max(axis=1)
-        badrow = np.where((r1 > 1e-9 * sc) | (r2 > 1e-12 * sc) | ~np.isfinite(r1))[0]
+        badrow = np.where((r1 > 1e-9 * sc) | (r2 > 1e-12 * sc) | ~np.isfinite(r2))[0]
         if len(badrow):
             k = int(badrow[0])
             fails.append({"key": f"bhjm-consistency:{cls}", "desc": f"B != mu0*H + J (residual {r1[k]:.3g}) or J != mu0*M (residual {r2[k]:.3g})",
@@ -202,4 +207,4 @@ def sweep(ctx, n):
                               "desc": f"after `{attr} = {val!r}` ({outcome}) polarization={P!r} and magnetization={Mg!r} (or getJ/getM inside the body) no longer describe the same excitation",
                               "replay": {"class": cls, "attribute": attr, "value": repr(val), "outcome": outcome, "polarization": repr(P), "magnetization": repr(Mg)}})
                 break
-    return fails, {"c02_rows": done, "c02_per_class": per}
+    return fails, {"c02_rows": done, "c02_per_class": per, "c02_nonfinite_rows_left_to_C15": nonfinite_rows}
